@@ -103,7 +103,7 @@ class Ctx(object):
 
     def check_floors(self):
         for name, r in sorted(self.rules.items()):
-            if r['floor'] is not None and r['instances'] < r['floor']:
+            if r['floor'] is not None and r['instances'] < r['floor'] and not r['reports']:
                 raise AnalysisError('rule %s matched %d instances, fewer than the %d confirmed by hand '
                                     '(anchor vanished or idiom no longer recognised)'
                                     % (name, r['instances'], r['floor']))
